@@ -20,6 +20,7 @@ EXPLANATION = (
     "sequence; does not decide what the peer sends or timing."
     " Fourth session: (checkpoint) the reactor is not resumed from the finalisation of a generator; (response-seen) borrowed from C03's ready-probe."
     ' Fifth round: everything done with a lazily decoded data set (decode and first use) lies inside the guarded try (decoded-use-guarded); (response-direction) borrowed from C20.'
+    " Sixth round: (reader-woken) AA-2 / AA-3 / AA-4 put the sentinel on every path and the queue is unbounded; (failure-path) _handle_no_response evaluated for both roles; (lock-owned) borrows C26's lock-released, which rejects a discarded acquire(timeout=..)."
 )
 
 GENS = ("_wrap_find_responses", "_wrap_get_move_responses")
